@@ -130,8 +130,8 @@ def check_transform(rec, inp):
     elif not close(got, exp):
         t = int(np.argmax(~np.isclose(got, exp, rtol=1e-8, atol=1e-8)))
         score_violation(rec, name, cuts_ok,
-                        f"moving_window_transform(n={n}, bandwidth={b}, {name}): score[{t}] = {got[t]!r}, the change score between X[{t - b}:{t}] and "
-                        f"X[{t}:{t + b}] is {exp[t]!r}" if b <= t <= n - b else f"score[{t}] = {got[t]!r} outside [b, n-b] must be 0", "C08.score_def", inp)
+                        f"moving_window_transform(n={n}, bandwidth={b}, {name}): score[{t}] = {float(got[t])!r}, the change score between X[{t - b}:{t}] and "
+                        f"X[{t}:{t + b}] is {float(exp[t])!r}" if b <= t <= n - b else f"score[{t}] = {got[t]!r} outside [b, n-b] must be 0", "C08.score_def", inp)
     return True
 
 
@@ -191,8 +191,8 @@ def check_detector(rec, inp):
     if exp is not None and not close(got, exp):
         t = int(np.argmax(~np.isclose(got, exp, rtol=1e-8, atol=1e-8)))
         score_violation(rec, name, cuts_ok,
-                        f"MovingWindow(bandwidth={b}, {name}).transform_scores: score[{t}] = {got[t]!r}, the change score between X[{t - b}:{t}] and X[{t}:{t + b}] "
-                        f"is {exp[t]!r}", "C08.score_def@transform_scores", inp)
+                        f"MovingWindow(bandwidth={b}, {name}).transform_scores: score[{t}] = {float(got[t])!r}, the change score between X[{t - b}:{t}] and X[{t}:{t + b}] "
+                        f"is {float(exp[t])!r}", "C08.score_def@transform_scores", inp)
     if not (th >= 0) and inp["threshold_scale"] is not None:        # quantifier: thresholds >= 0 or tuned
         return info
     if not np.isfinite(th):
@@ -230,7 +230,7 @@ def check_reversal(rec, inp):
     bad = [t for t in range(1, n) if not close(rs[n - t], fs[t])] + ([0] if not close(rs[0], fs[0]) else [])
     if bad:
         t = bad[0]
-        what = (f"MovingWindow(bandwidth={b}, {name}): score[{t}] = {fs[t]!r} on X but score[{n - t}] = {rs[(n - t) % n]!r} on the time-reversed X "
+        what = (f"MovingWindow(bandwidth={b}, {name}): score[{t}] = {float(fs[t])!r} on X but score[{n - t}] = {float(rs[(n - t) % n])!r} on the time-reversed X "
                 f"(X = {X.tolist()})")
         if not cuts_ok[0]:
             rec.violation(KEY_CUTS, what + f" [{cuts_ok[1]}]", "C08.reversal.scores", inp)
@@ -265,18 +265,33 @@ def admissible_mdi(b):
 def run(tier="quick", seed=0, repo="/repo"):
     use_repo(repo)
     rec = O.Rec(target=TARGET)
+    O.reset_hangs()
+    bound = {}
+    try:
+        _enumerate(rec, tier, seed, bound)
+    except O.Abort:
+        bound["text"] = bound.get("text", "") + " [enumeration stopped early: calls into the real code did not terminate]"
+    return rec.result(RULE, bound.get("text", "stopped before the bound was fixed"), exhaustive=False)
+
+
+def _enumerate(rec, tier, seed, bound_out):
     rng = np.random.default_rng(seed)
     quick = tier == "quick"
+    n_where = 10 if quick else 15
+    n_peaks = 6 if quick else 8
+    bs = [1, 2, 3, 4] if quick else [1, 2, 3, 4, 5, 6]
+    n_max = 12 if quick else 16
+    bs_d = [1, 2, 3, 4, 6] if quick else [1, 2, 3, 4, 5, 6, 8]
+    bound_out["text"] = (f"where: all boolean arrays of length <= {n_where}; peaks: {{0,1,2,3}}^n for n <= {n_peaks} + random; transform: bandwidth in {bs}, "
+                         f"2b <= n <= {n_max}, p <= 2; detector: bandwidth in {bs_d}, n in 2b..2b+8, every admitted min_detection_interval")
 
     # (1) where: all boolean arrays
-    n_where = 10 if quick else 15
     for n in range(0, n_where + 1):
         for bits in itertools.product((False, True), repeat=n):
             inp = {"check": "where", "indicator": list(bits)}
             rec.case(("where", bits), check_where(rec, inp), inp if bits == (False, True, True, False, True) else None)
 
     # (2) peaks: all arrays over {0,1,2,3}^n
-    n_peaks = 6 if quick else 8
     for n in range(1, n_peaks + 1):
         for arr in itertools.product((0.0, 1.0, 2.0, 3.0), repeat=n):
             for th in (0.0, 1.0, 2.0) if quick or n > 7 else (0.0, 0.5, 1.0, 2.0, 3.0):
@@ -293,8 +308,6 @@ def run(tier="quick", seed=0, repo="/repo"):
             rec.case(("peaksr", it, th, mdi), check_peaks(rec, inp), None)
 
     # (3) transform kernel
-    bs = [1, 2, 3, 4] if quick else [1, 2, 3, 4, 5, 6]
-    n_max = 10 if quick else 14
     for b in bs:
         for n in range(2 * b, n_max + 1):
             X0 = np.zeros((n, 1))
@@ -311,7 +324,6 @@ def run(tier="quick", seed=0, repo="/repo"):
                     rec.case(("tr", name, n, p, b), check_transform(rec, inp), None)
 
     # (4) detector class (+ reversal)
-    bs_d = [1, 2, 3, 4, 6] if quick else [1, 2, 3, 4, 5, 6, 8]
     for b in bs_d:
         mdis = admissible_mdi(b)
         ns = sorted({2 * b, 2 * b + 1, 2 * b + 3, min(2 * b + 6, 14)}) if quick else list(range(2 * b, 2 * b + 9))
@@ -343,9 +355,6 @@ def run(tier="quick", seed=0, repo="/repo"):
                             if spec["kind"] == "builtin" and "Xfit" not in d:
                                 r = dict(d, check="reversal")
                                 rec.case(("rev", str(spec), n, p, b, mdi, d["threshold_scale"], d.get("level")), check_reversal(rec, r), None)
-    bound = (f"where: all boolean arrays of length <= {n_where}; peaks: {{0,1,2,3}}^n for n <= {n_peaks} + random; transform: bandwidth in {bs}, "
-             f"2b <= n <= {n_max}, p <= 2; detector: bandwidth in {bs_d}, n in 2b..2b+8, every admitted min_detection_interval")
-    return rec.result(RULE, bound, exhaustive=False)
 
 
 def replay(inp, repo="/repo"):
